@@ -7,7 +7,7 @@ function in which such calls are replaced by the helper's body, so that the rule
 
 Only statement-position calls are inlined:
 
-    x = self._h(a, b)          a, b = self._h(...)          self._h(...)          x = _h(...)
+    x = self._h(a, b)          a, b = self._h(...)          self._h(...)          x = _h(...)          return _h(...)
 
 and only when the helper is *single-exit*: its body ends in the only `return` it contains (or it contains none), it is not a
 generator, not async, has no *args/**kwargs, and every argument can be bound by position or keyword. The inlined text is
@@ -88,6 +88,8 @@ def _expand(fi: FuncInfo, caller_names: set[str], st: ast.stmt, select: Callable
         call, targets = st.value, [st.target]
     elif isinstance(st, ast.Expr) and isinstance(st.value, ast.Call):
         call, targets = st.value, []
+    elif isinstance(st, ast.Return) and isinstance(st.value, ast.Call):
+        call, targets = st.value, []
     else:
         return None
     h = _helper_of(fi, call)
@@ -166,7 +168,11 @@ def _expand(fi: FuncInfo, caller_names: set[str], st: ast.stmt, select: Callable
         body = body[:-1]
     new_body = [R().visit(b) for b in body]
     out: list[ast.stmt] = prologue + new_body
-    if targets:
+    if isinstance(st, ast.Return):
+        fin = ast.Return(value=R().visit(ret_value) if ret_value is not None else None)
+        ast.copy_location(fin, st)
+        out.append(fin)
+    elif targets:
         val = R().visit(ret_value) if ret_value is not None else ast.Constant(value=None)
         if isinstance(st, ast.AnnAssign):
             fin: ast.stmt = ast.AnnAssign(target=st.target, annotation=st.annotation, value=val, simple=st.simple)
